@@ -24,7 +24,9 @@ ASSUMPTIONS = [
     "seed=None (random seed) is not modelled",
 ]
 
-MODELS = ["Gaussian", "Exponential", "Matern", "Stable", "Spherical", "Cubic", "TPLGaussian"]
+# models with a closed-form spectral density (numerically transformed spectra go negative at large k -> sqrt = nan;
+# that is C04's business, not periodicity)
+MODELS = ["Gaussian", "Exponential", "Matern", "TPLGaussian", "Integral"]
 TAGS = [(n, v, l) for n in MODELS for (v, l) in ((1.3, 4.0), (0.7, 9.0))]      # pairwise not np.isclose
 
 
@@ -290,7 +292,7 @@ def corr_hist(ctx, n, dis, dist, samples):
                 dis.append(dict(what="fourier:update:modes", case=case))
                 break
             if st["seed"] != g.seed or st["zlen"] != len(g._z_1) or len(g._z_2) != len(g._z_1) \
-                    or len(g._spectrum_factor) != g.modes.shape[1] and st["fresh"]:
+                    or (st["fresh"] and len(g._spectrum_factor) != g.modes.shape[1]):
                 dis.append(dict(what="fourier:update:seed/z", lean=[st["seed"], st["zlen"]], real=[g.seed, len(g._z_1)], case=case))
                 break
             if st["tag"] != find_tag(g.model) or not np.array_equal(unbits(st["anis"]), np.asarray(g.model.anis, dtype=float)[: dim - 1]):
@@ -464,7 +466,8 @@ def search_histories(ctx, n, viol):
             except Exception as ex:
                 viol.append({"key": f"fourier:history-exception:{kind}", "what": f"{type(ex).__name__}: {ex}", "case": dict(trace=trace)})
                 break
-            trace.append(dict(kind=kind, period=list(period), mode_no=list(mno), anis=list(anis), angles=list(angles), tag=tag))
+            trace.append(dict(kind=kind, period=list(period), mode_no=list(mno), anis=list(anis), angles=list(angles), tag=tag,
+                              len_scale=float(srf.model.len_scale)))
             case = dict(dim=dim, seed=seed, trace=trace)
             if [int(v) for v in srf.generator.mode_no] != [int(v) for v in mno]:
                 viol.append({"key": "fourier:arange-length", "what": "mode_no after update differs from the requested one",
